@@ -23,8 +23,13 @@ impl Float {
         let sem = self.get_semantics();
         let rm = sem.get_rounding_mode();
 
+        // The reciprocals of the fractional parts can be as large as
+        // 2^precision, whatever the magnitude of 'self'. Iterate in a format
+        // with enough exponent range for them (same precision and rounding
+        // mode), otherwise they overflow in formats with few exponent bits.
+        let sem = sem.increase_exponent(sem.log_precision() + 1);
         let one = Self::one(sem, false);
-        let mut real = self.clone();
+        let mut real = self.cast(sem);
         let mut a: Vec<BigInt> = Vec::new();
 
         for _ in 0..n.max(2) {
